@@ -2,13 +2,16 @@
 (* Trace validation for byte-order conversion: every recorded chain of conversions   *)
 (* executed on real numpy arrays is judged step by step by the property-level        *)
 (* clauses of ByteOrder.tla.  One ndjson line per chain:                              *)
-(*   {"id": k, "kinds": [...], "spell": "<", "layout": "strided", "plain": false,     *)
+(*   {"id": k, "kinds": [...], "spell": "<", "layout": "strided", "wr": "ro",         *)
+(*    "plain": false,                                                                 *)
 (*    "ops": [{"fn","inplace","keep"}, ...], "st": [state_0, ..., state_n]}           *)
 (*   state = {"res": i, "err": "none"|class, "arrs": [{"decl","phys","sig","shp",     *)
-(*            "grp","hash"}, ...], "rest": "intact"|"changed", "pred": {...},         *)
+(*            "grp","hash","w","lin"}, ...], "rest": "intact"|"changed", "pred": {...},         *)
 (*            "dn": [...]}  (state_0 also has "lay": the observed layout flags)       *)
 (* state_k is the projection of the real arrays after step k; a step is judged        *)
 (* against the OBSERVED previous state, so one wrong step yields one rejection.       *)
+(* ops may be conversions (also refused ones: err # "none", judged as stutter steps)  *)
+(* or steps of the caller ("fresh", "mut_names", "mut_shape", "mut_lock").            *)
 (* Failing clauses are printed as "<step>:<clause>" (step 0 = the initial array).     *)
 EXTENDS ByteOrder, Json, IOUtils
 
@@ -31,8 +34,8 @@ ObsFailing(K, s) == IF s.err # "none" THEN {} ELSE BOPredFailing(K, s) \cup BODe
 FailingRec(r) ==
     LET K == r.kinds
         n == Len(r.ops)
-        StepF(k) == BOStepFailing(K, r.st[k], r.ops[k], r.st[k + 1])
-    IN Tag(0, BOInitFailing(K, r.spell, r.layout, r.plain, r.st[1]) \cup ObsFailing(K, r.st[1])) \cup
+        StepF(k) == BOAnyStepFailing(K, r.spell, r.st[k], r.ops[k], r.st[k + 1])
+    IN Tag(0, BOInitFailing(K, r.spell, r.layout, r.plain, r.wr, r.st[1]) \cup ObsFailing(K, r.st[1])) \cup
        UNION {Tag(k, StepF(k) \cup ObsFailing(K, r.st[k + 1]) \cup
                      (IF k >= 2 /\ StepF(k) = {} /\ StepF(k - 1) = {}
                       THEN BOPairFailing(K, r.st[k - 1], r.ops[k - 1], r.st[k], r.ops[k], r.st[k + 1])
